@@ -16,7 +16,8 @@
 (* and the influence set of u is every node within a radius that may       *)
 (* depend on the status u has just taken (inflby).                         *)
 (* Covers threshold contagion, SIR written as a complex contagion, cyclic  *)
-(* 3-status models and long-range (distance-2) influence.                  *)
+(* 3-status models, long-range (distance-2) and population-wide (dist 9)   *)
+(* influence.                                                              *)
 (*                                                                         *)
 (* Ref: Fire(u) with numerator Rate(u, st).                                *)
 (* Impl: the bag `rates` of nodes_by_rate, re-rated only for u and its     *)
@@ -38,7 +39,8 @@ Nodes      == 1..Scenarios[sc].n
 Statuses   == {Scenarios[sc].statuses[i] : i \in 1..Len(Scenarios[sc].statuses)}
 Adj(u, v)  == Scenarios[sc].adj[u][v] = 1
 Rules      == Scenarios[sc].rules
-Within(u, d) == IF d = 1 THEN {v \in Nodes : Adj(u, v)}
+\* d = 9: the whole population (mean-field / long-range influence read off the status dict)
+Within(u, d) == IF d = 9 THEN Nodes \ {u} ELSE IF d = 1 THEN {v \in Nodes : Adj(u, v)}
                 ELSE {v \in Nodes \ {u} : Adj(u, v) \/ \E x \in Nodes : Adj(u, x) /\ Adj(x, v)}
 RuleOf(s)  == CHOOSE j \in 1..Len(Rules) : Rules[j].from = s
 HasRule(s) == \E j \in 1..Len(Rules) : Rules[j].from = s
